@@ -344,6 +344,11 @@ def c07_cases(ctx, bases, rnd):
     for ln in (0, 1, len(tail) - 1, len(tail), len(tail) + 1, (1 << 31) - 1, 1 << 31, (1 << 32) - 1):
         add([{"bytes": skipm + le32(ln) + tail}], "skip-length")
         add([{"bytes": skipm + le32(ln) + tail}], "skip-length", cfg={"conc": rnd.choice([1, 4]), "mode": rnd.choice(["read", "writeto"]), "bufs": [4096], "seek": True})
+    # the announced number of bytes is skipped, all 32 bits of it: with the top bit set and 3 bytes + a frame behind it, the
+    # frame is not reached
+    for ln in (0x80000003, 0xC0000003, 0x80000000 + 3 + len(tail)):
+        for seek in (False, True):
+            add([{"bytes": skipm + le32(ln) + [9, 9, 9] + tail}], "skip-length-topbit", cfg={"conc": rnd.choice([1, 4]), "mode": rnd.choice(["read", "writeto"]), "bufs": [4096], "seek": seek})
     for size in (1, 65536, 65537, (1 << 31) - 1, 0x80000000 | 1, 0x80000000 | 65537, 0xFFFFFFFF, 0x80000000):
         for h in (hdr, hdr_cc):
             add([{"bytes": h + le32(size) + [1, 2, 3]}], "block-size")
@@ -492,6 +497,9 @@ def event_of(prop, c, r):
         e["deliveredMiB"] = r["deliveredLen"] // (1 << 20) + 1
         if "ref" not in e:
             e["ref"] = {"status": "unparsed"}
+        first = (c.get("chunks") or [{}])[0].get("bytes") or []
+        e["skipfirst"] = len(first) >= 4 and (first[0] & 0xF0) == 0x50 and first[1:4] == [0x2A, 0x4D, 0x18] and (c.get("chunks") or [{}])[0].get("repeat", 1) == 1
+        e.setdefault("delivered", [])
     e.setdefault("legacyboundary", False)
     e.setdefault("prefixOfContent", True)
     e.setdefault("content", [])
